@@ -203,6 +203,6 @@ func init() {
 	register(&Scenario{Prop: "C19", Name: "c19/pipelined-client", Quick: []Bound{{1, 0}, {2, 0}}, Thorough: []Bound{{3, 0}}, Body: c19Pipelined})
 	register(&Scenario{Prop: "C19", Name: "c19/1abandoned-yieldcodec", Quick: []Bound{{1, 0}}, Thorough: []Bound{{2, 0}}, Body: c19BodyOpt(1, srvOpts{bufSize: 64, codec: yieldBytesCodec}, cliOpts{bufSize: 64})})
 	register(&Scenario{Prop: "C19", Name: "c19/1abandoned", Quick: []Bound{{1, 0}, {2, 0}}, Thorough: []Bound{{3, 0}}, Body: c19Body(1), BudgetQ: 35})
-	register(&Scenario{Prop: "C01", Name: "c01/next-to-abandoned-calls", Quick: []Bound{{1, 0}, {2, 0}}, Thorough: []Bound{{3, 0}}, Body: c19Body(1), OnlyKeys: []string{"C01/", "panic/", "livelock/"}, BudgetQ: 30})
+	register(&Scenario{Prop: "C01", Name: "c01/next-to-abandoned-calls", Quick: []Bound{{1, 0}}, Thorough: []Bound{{3, 0}}, Body: c19Body(1), OnlyKeys: []string{"C01/", "panic/", "livelock/"}, BudgetQ: 20})
 	register(&Scenario{Prop: "C19", Name: "c19/2abandoned", Quick: []Bound{{1, 0}}, Thorough: []Bound{{2, 0}}, Body: c19Body(2)})
 }
